@@ -10,6 +10,7 @@ CONSTANTS
   RenderFails = FALSE
   CacheMisses = TRUE
   VerBumps = FALSE
+  Forges = FALSE
   FailKinds = {"fnerror2", "fatal1"}
 VIEW view
 ACTION_CONSTRAINT Emit
